@@ -56,6 +56,14 @@ def cases(tier, seed):
         scn["iters"] = int(rng.integers(500, 1500 if tier == "quick" else 3000))
         scn["eps"] = scenario.eps_floor(scn["N"], scn["m"]) * 1.5
         out.append({"scn": scn, "i": 100000 + i, "seed": seed, "long": True})
+    # deep one-dimensional runs (r barely above 1, eps far below the resolution of doubles): the fault-free run goes on until the method's own
+    # floating-point guard ends it; faults are injected at every evaluation it completed before that
+    for i in range(6 if tier == "quick" else 120):
+        rng = scenario.rng_for(seed, "C16D", i)
+        lo, hi, kind = scenario.gen_box(rng, 1, ["unit", "float", "int"][i % 3])
+        scn = {"N": 1, "lower": lo, "upper": hi, "box": kind, "obj": {"fam": "cones", "a": [[float(rng.uniform(0.1, 0.9))]], "c": [0.0], "K": [float(10 ** rng.uniform(-1, 1))]},
+               "r": float([1.0 + 1e-6, 1.0 + 1e-12, 1.001, 1.3][i % 4]), "eps": 1e-300, "iters": 60, "m": 10, "refine": False, "holder": "same"}
+        out.append({"scn": scn, "i": 200000 + i, "seed": seed, "deep": True})
     return out
 
 
@@ -64,10 +72,16 @@ def run_case(c):
     viol = []
     obs = {"base_scenarios": 1}
     base = record.run_solver(scn, listener=False)
-    if base.fp_exhausted:
+    guard_ended = bool(base.fp_exhausted or (record.FP_GUARD in base.stdout and record.partition_degenerate(base.solver)))
+    if guard_ended and not c.get("deep"):
         return {"violations": [], "obs": {"fp_domain_exhausted": 1}, "skip": "fp-domain-exhausted"}
-    T = len([e for e in base.log if e["ph"] == "g"])
-    if base.swallowed or base.aborted:
+    T = len([e for e in base.log if e["ph"] == "g" and e["exc"] is None and e["v"] is not None])
+    if c.get("deep"):
+        obs["deep_base_runs"] = 1
+        obs["deep_base_runs_ended_by_the_guard"] = int(guard_ended)
+        obs["max_T_deep"] = T
+        T = T - 1 if guard_ended else T          # the evaluations completed before the guard fired
+    if (base.swallowed or base.aborted) and not guard_ended:
         viol.append({"mech": "solve-internal-exception", "msg": "fault-free base run: Solve printed 'Exception was thrown'", "stdout": base.stdout[-300:]})
     obs["max_T"] = T
     keys = []
